@@ -183,20 +183,42 @@ Definition fl_of_bits (b : N) : flags :=
 
 Definition flags_eqb (a b : flags) : bool := fl_bits a =? fl_bits b.
 
-(** ** The monitor.  State carried along the trace: the observed state before the step, and the
-    store as it was when the running fail-safe period was armed ([None]: not armed, or a commit /
-    a write outside the fail-safe has touched the store since).
+(** RAM holds what the store holds, except possibly at the fabric indices [excl] *)
+Definition in_list (i : N) (l : list N) : bool := existsb (N.eqb i) l.
+
+Definition synced_except (excl : list N) (st : state) : bool :=
+  forallb (fun f => in_list (f_idx f) excl ||
+                    ofabric_eqb (fget (f_idx f) (s_fabs st)) (fget (f_idx f) (k_fabs (s_kv st))))
+          (s_fabs st ++ k_fabs (s_kv st)) &&
+  nets_eqb (s_nets st) (load_nets (s_kv st)).
+
+Definition desynced_at (st : state) (i : N) : bool :=
+  negb (ofabric_eqb (fget i (s_fabs st)) (fget i (k_fabs (s_kv st)))).
+
+(** ** The monitor.  Carried along the trace:
+    - [pre]   the observed state before the step;
+    - [base]  the store as it was when the running fail-safe period was armed ([None]: not armed,
+              or a commit / a write outside the fail-safe has touched the store since);
+    - [taint] fabric indices whose RAM copy runs ahead of the store because an IMMEDIATE write
+              (outside any fail-safe) was answered with an error after changing RAM - not this
+              property's subject, so excluded from the RAM-equals-store comparisons;
+    - [moved] the fabric index the fail-safe context has moved away from (AddNOC on a CASE session).
 
     Clause numbers (names in ocaml/c08/driver.ml):
       1 rollback-not-exact          2 store-changed-under-failsafe   3 commit-not-durable
       4 partial-commit              5 refused-command-changed-state  6 accepted-out-of-order
-      7 accepted-from-other-context 8 failed-complete-left-unrollbackable *)
-Definition check_step (pre : state) (base : option kvs) (o : op) (r : status) (post : state)
-  : list N :=
+      7 accepted-from-other-context 8 failed-complete-left-unrollbackable
+      9 staged-change-orphaned-by-context-switch *)
+Definition opt_list (x : option N) : list N := match x with Some i => [i] | None => [] end.
+
+Definition check_step (pre : state) (base : option kvs) (taint : list N) (moved : option N)
+           (o : op) (r : status) (post : state) : list N :=
   let ok := status_ok r in
+  let excl := taint ++ opt_list moved in
+  let happened := is_rollback o && (ok || match o with OCompleteCut _ _ => true | _ => false end) in
   let c1 :=
-    if is_rollback o && (ok || match o with OCompleteCut _ _ => true | _ => false end) then
-      if is_idle post && (s_bc post =? 0) && synced post &&
+    if happened then
+      if is_idle post && (s_bc post =? 0) && synced_except excl post &&
          match o with OCompleteCut _ _ => true | _ => kv_eqb (s_kv post) (s_kv pre) end &&
          match base, o with
          | Some _, OCompleteCut _ _ => true
@@ -219,7 +241,7 @@ Definition check_step (pre : state) (base : option kvs) (o : op) (r : status) (p
     match o with
     | OComplete _ _ =>
       if ok then
-        if is_idle post && (s_bc post =? 0) && synced post &&
+        if is_idle post && (s_bc post =? 0) && synced_except excl post &&
            fabs_eqb (s_fabs post) (s_fabs pre) &&
            list_eqb (n_ids (s_nets post)) (n_ids (s_nets pre))
         then [] else [3]
@@ -283,7 +305,14 @@ Definition check_step (pre : state) (base : option kvs) (o : op) (r : status) (p
       if ok then [] else if fs_eqb (s_fs pre) (s_fs post) then [] else [8]
     | _ => []
     end in
-  c1 ++ c2 ++ c3 ++ c4 ++ c5 ++ c6 ++ c7 ++ c8.
+  let c9 :=
+    match moved with
+    | Some g =>
+      if (happened || match o with OComplete _ _ => ok | _ => false end) && desynced_at post g
+      then [9] else []
+    | None => []
+    end in
+  c1 ++ c2 ++ c3 ++ c4 ++ c5 ++ c6 ++ c7 ++ c8 ++ c9.
 
 Definition next_base (pre : state) (base : option kvs) (o : op) (post : state) : option kvs :=
   match s_fs post with
@@ -294,16 +323,38 @@ Definition next_base (pre : state) (base : option kvs) (o : op) (post : state) :
     else None                                     (* something was committed meanwhile *)
   end.
 
-Fixpoint monitor_from (pre : state) (base : option kvs) (tr : list (op * (status * state)))
+Definition next_taint (pre : state) (taint : list N) (o : op) (r : status) (post : state)
   : list N :=
+  let add :=
+    match o with
+    | OAclW s _ _ => if status_ok r then [] else opt_list (obs_sess_fab pre s)
+    | _ => []
+    end in
+  filter (desynced_at post) (taint ++ add).
+
+Definition next_moved (pre : state) (moved : option N) (post : state) : option N :=
+  match s_fs pre, s_fs post with
+  | _, Idle => None
+  | Armed f _, Armed g _ =>
+    match moved with
+    | Some m => Some m
+    | None => if (f =? g) || (f =? 0) then None else Some f
+    end
+  | Idle, Armed _ _ => None
+  end.
+
+Fixpoint monitor_from (pre : state) (base : option kvs) (taint : list N) (moved : option N)
+         (tr : list (op * (status * state))) : list N :=
   match tr with
   | [] => []
   | (o, (r, post)) :: rest =>
-    check_step pre base o r post ++ monitor_from post (next_base pre base o post) rest
+    check_step pre base taint moved o r post ++
+    monitor_from post (next_base pre base o post) (next_taint pre taint o r post)
+                 (next_moved pre moved post) rest
   end.
 
 Definition monitor (st0 : state) (tr : list (op * (status * state))) : list N :=
-  monitor_from st0 None tr.
+  monitor_from st0 None [] None tr.
 
 Definition max_fabrics_n : N := N.of_nat MAX_FABRICS.
 Definition max_nets_n : N := N.of_nat MAX_NETS.
